@@ -33,8 +33,10 @@ def _unpack_collections(o):
     if isinstance(o, Expr):
         return o
 
-    if hasattr(o, "expr"):
-        return o.expr
+    # A pandas object with a column or label "expr" has such an attribute too
+    expr = getattr(o, "expr", None)
+    if isinstance(expr, Expr):
+        return expr
     else:
         return o
 
